@@ -15,7 +15,8 @@
 4. CmdSpaceTrace (TLC) judges every record: the command is legal for the configuration, it completed OK
    (unless an argument is one the protocol need not carry: NUL, longer than the server's literal limit),
    and Norm(received calls) = Exp(cfg, sent command).
-5. Binding demonstration: one field of one accepted record is corrupted; the judge must reject that line.
+5. Binding demonstration: copies of accepted observations with one corrupted field are appended to the
+   judged file; the judge must reject every one of them.
 """
 import base64, json, os, time
 import vlib
@@ -40,6 +41,21 @@ def run(ctx):
         # 8 = reachable configurations (states with no command in flight)
         raise vlib.Infra("generator printed %d cases, TLC found %d states" % (ncases, g.distinct))
     lap("model_check_and_generate")
+    if not quick:
+        # the same properties on the plain module (no generator), as a cross-check of the Gen configuration
+        ctx.tlc_ok("CmdSpace", "CmdSpace_mc_thorough.cfg", timeout=1200, count=False)
+        lap("model_check_plain")
+    ctx.assumptions += [
+        "test server capability sets: {IMAP4rev1}; {IMAP4rev1, IMAP4rev2, BINARY, CREATE-SPECIAL-USE}; {IMAP4rev1, LITERAL+, "
+        "NAMESPACE, UIDPLUS, ESEARCH, SEARCHRES, LIST-EXTENDED, LIST-STATUS, MOVE, STATUS=SIZE, BINARY, CREATE-SPECIAL-USE}; "
+        "the harness checks the real CAPABILITY response against CmdSpace!Adv in every configuration",
+        "commands are issued over a plaintext in-memory connection with Options.InsecureAuth (TLS is C17's concern)",
+        "arguments the protocol need not carry (a NUL, a string longer than the server's 4096-byte literal limit, bytes that "
+        "are in no UTF-8 text) may be refused as a whole; they must never arrive altered",
+        "not enumerated: mailbox names that are not valid UTF-8 (outside modified UTF-7's domain), the empty LIST pattern "
+        "(delimiter request), several LIST patterns (Client.List takes one), Client.Move without MOVE (fallback sequence), "
+        "number-set ranges outside imapnum.Range's documented representation, CONDSTORE/SPECIAL-USE/SORT/THREAD/METADATA/QUOTA "
+        "(not advertised by imapserver)"]
     binp = ctx.build("cmdspace")
     lap("go_build")
     # 2. spec -> impl
@@ -51,21 +67,27 @@ def run(ctx):
     os.unlink(g.out_path)
     # 3. impl -> spec: random, larger values
     rnd = os.path.join(ctx.scratch, "cmdspace-random.ndjson")
-    nrand = 800 if quick else 6000
+    nrand = 800 if quick else 12000
     recs, _, _ = ctx.harness(binp, ["random", rnd, "-seed", ctx.seed, "-n", nrand], timeout=1200)
     s2 = ctx.summary(recs)
     lap("real_code")
     # 4. TLC judges every record (enumerated and random in one run)
+    #    The binding demonstration rides along: corrupted copies of recorded observations are appended
+    #    after the real records; the judge must reject exactly those whose original it accepts.
     allp = os.path.join(ctx.scratch, "cmdspace-all.ndjson")
-    with open(allp, "w") as fh:
-        fh.write(open(enum).read())
-        fh.write(open(rnd).read())
-    n, bad = judge(ctx, allp, "all", parts=4)
-    lap("judge")
+    lines = open(enum).read().splitlines() + open(rnd).read().splitlines()
     n1 = s["records"]
+    n = len(lines)
     if n - n1 != s2["records"]:
         raise vlib.Infra("random mode recorded %d cases, file has %d" % (s2["records"], n - n1))
-    lines = open(allp).read().splitlines()
+    muts = corruptions(lines[:n1])
+    with open(allp, "w") as fh:
+        fh.write("\n".join(lines) + "\n")
+        for _, _, rec in muts:
+            fh.write(json.dumps(rec) + "\n")
+    ntot, bad_all = judge(ctx, allp, "all", parts=4)
+    bad = [d for d in bad_all if d["line"] <= n]
+    lap("judge")
     strings = json.load(open(rnd + ".strings"))
     sigs = {}
     for d in bad:
@@ -84,8 +106,7 @@ def run(ctx):
     for smp in (s.get("samples") or [])[:3] + (s2.get("samples") or [])[:1]:
         ctx.sample({"recorded": compact(smp)})
     # 5. binding demonstration
-    demo = binding_demo(ctx, lines, {d["line"] for d in bad})
-    lap("binding_demo")
+    demo = binding_verdict(muts, n, {d["line"] for d in bad_all})
     ctx.finish(rule="one case = one command instance issued through the real imapclient API in one configuration "
                "(server capability set x enabled extensions) against a real imapserver connection, what the stub "
                "backend session received recorded and judged by TLC with Norm(received) = Exp(cfg, sent); "
@@ -237,6 +258,9 @@ def sig_for(rec, d):
                 (e["all"] == g["all"] or not (e["min"] or e["max"] or e["count"] or e["all"]))
             if rest_same:
                 return "search/return-save-dropped"
+        if e["save"] and g["save"] and g["all"] and not (e["min"] or e["max"] or e["count"] or e["all"]) \
+                and not (g["min"] or g["max"] or g["count"]):
+            return "search/save-only-gets-all"
     if ok and c == "search" and diff == ["crit"]:
         leaves = crit_diff(d["exp"][0]["crit"], d["got"][0]["crit"])
         if leaves and leaves <= {"since", "before", "sentsince", "sentbefore"} and on_fold_nodes(cmd["crit"]):
@@ -299,49 +323,46 @@ def opaque_keys(v):
 
 
 # ----------------------------------------------------------------- binding demonstration
-def binding_demo(ctx, lines, bad_lines):
-    """corrupt what the backend received in copies of accepted records (a flipped .SILENT, one changed byte
-    of a mailbox name, a dropped header field, a changed partial, a date one day off); the judge must
-    reject exactly those lines"""
+def corruptions(lines):
+    """corrupt what the backend received in copies of recorded observations (a flipped .SILENT, one changed
+    byte of a mailbox name, a dropped header field, a date one day off, a payload one byte longer, a
+    password replaced).  Returns [(label, line number of the original, corrupted record)]."""
     muts = []
 
     def want(pred, mutate, label):
         for i, line in enumerate(lines):
-            if (i + 1) in bad_lines:
-                continue
             rec = json.loads(line)
             if rec["ok"] and rec["recv"] and pred(rec):
                 mutate(rec)
-                muts.append((label, rec))
+                rec.pop("err", None)
+                muts.append((label, i + 1, rec))
                 return
     want(lambda r: r["cmd"]["c"] == "STORE", lambda r: r["recv"][0].__setitem__("silent", not r["recv"][0]["silent"]), "STORE .SILENT flipped")
     want(lambda r: r["cmd"]["c"] == "RENAME" and len(r["recv"][0]["to"]) > 1 and r["recv"][0]["to"][0] > 0,
          lambda r: r["recv"][0]["to"].__setitem__(0, r["recv"][0]["to"][0] ^ 1), "RENAME new name, one byte changed")
     want(lambda r: r["cmd"]["c"] == "FETCH" and any(len(s["hf"]) > 1 for s in r["recv"][0]["secs"]),
          lambda r: [s["hf"].pop() for s in r["recv"][0]["secs"] if len(s["hf"]) > 1], "FETCH HEADER.FIELDS last field dropped")
-    want(lambda r: r["cmd"]["c"] == "SEARCH" and r["recv"][0]["crit"]["since"][0] == 1,
+    want(lambda r: r["cmd"]["c"] == "SEARCH" and r["recv"][0]["crit"]["since"][0] == 1 and r["recv"][0]["crit"]["before"][0] == 0,
          lambda r: r["recv"][0]["crit"]["since"].__setitem__(1, r["recv"][0]["crit"]["since"][1] + 1), "SEARCH SINCE one day later")
-    want(lambda r: r["cmd"]["c"] == "APPEND" and r["recv"][0]["data"] and r["recv"][0]["data"][0] > 0,
+    want(lambda r: r["cmd"]["c"] == "APPEND" and r["recv"][0]["data"] and r["recv"][0]["data"][0] > 0 and r["cmd"]["date"]["zone"] < 100000,
          lambda r: r["recv"][0]["data"].append(10), "APPEND payload one byte longer")
     want(lambda r: r["cmd"]["c"] == "LOGIN" and r["recv"][0]["pass"] != r["recv"][0]["user"],
          lambda r: r["recv"][0].__setitem__("pass", r["recv"][0]["user"]), "LOGIN password replaced by user name")
-    if len(muts) < 4:
-        raise vlib.Infra("binding demonstration: only %d suitable records" % len(muts))
-    # the corrupted records interleaved with their untouched originals' neighbours
-    p = os.path.join(ctx.scratch, "cmdspace-corrupt.ndjson")
-    good = [l for i, l in enumerate(lines[:40]) if (i + 1) not in bad_lines][:6]
-    with open(p, "w") as fh:
-        for l in good:
-            fh.write(l + "\n")
-        for _, rec in muts:
-            fh.write(json.dumps(rec) + "\n")
-    n, bad = judge(ctx, p, "corrupt")
-    got = {d["line"] for d in bad}
-    want_lines = set(range(len(good) + 1, len(good) + len(muts) + 1))
-    if got != want_lines:
-        raise vlib.Infra("binding demonstration failed: corrupted records %s, rejected %s" % (sorted(want_lines), sorted(got)))
-    return "%d corrupted observations (%s) all rejected, %d untouched records accepted" % (
-        len(muts), "; ".join(m[0] for m in muts), len(good))
+    return muts
+
+
+def binding_verdict(muts, n, bad_lines):
+    """corrupted record k is line n+k; it demonstrates binding iff its original was accepted and it was rejected"""
+    shown, missed = [], []
+    for k, (label, orig, _) in enumerate(muts):
+        if orig in bad_lines:
+            continue  # the original observation is itself rejected (a finding): nothing to demonstrate with it
+        (shown if (n + k + 1) in bad_lines else missed).append(label)
+    if missed:
+        raise vlib.Infra("binding demonstration failed: corrupted observations accepted by the judge: %s" % "; ".join(missed))
+    if len(shown) < 4:
+        raise vlib.Infra("binding demonstration: only %d suitable records" % len(shown))
+    return "%d corrupted copies of accepted observations (%s) all rejected by CmdSpaceTrace" % (len(shown), "; ".join(shown))
 
 
 # ----------------------------------------------------------------- replay
